@@ -140,7 +140,10 @@ def parseACalls (s : String) : List Spec.ACall :=
     -- local call, evaluated here / by the other object (the functional carries the creator's index offsets)
     if t.startsWith "L" || t.startsWith "H" || t.startsWith "I" then some (.loc body)
     else if t.startsWith "F" || t.startsWith "G" then some (.fp body)
-    else if t.startsWith "S" then
+    -- S `::f()` / `A::f()`; J the same call inside a functional `(: ::f() :)` evaluated here; K that functional evaluated
+    -- by ANOTHER object (it refers to no global and no local function: only the offsets saved in the pointer tell
+    -- the inherited function which copy of the variables and which slots are its own)
+    else if t.startsWith "S" || t.startsWith "J" || t.startsWith "K" then
       match body.splitOn "." with
       | ["*", f] => some (.sup none f)
       | [a, f] => some (.sup (some a) f)
